@@ -51,6 +51,42 @@ CHECKS = {
     "C16": dict(cat="exploration", engine="E1-world", tech=T_WORLD + "invariant over hook invocations recorded at the subprocess boundary",
                 text="All 16 set/unset combinations of the four lifecycle commands, HPC and local mode, optional resubmission; counts, "
                      "ordering relative to sbatch/launch/finish/completion, hosts and environment of every hook invocation are checked."),
+    "C08": dict(cat="exploration", engine="E1-world(scheduler)+E4-direct", tech=T_WORLD + "multiset equality (appended rows == consolidated rows == union of reported rows) under schedules at lock- and file-operation granularity; tiny configuration enumerated up to 2 pre-emptions in the thorough tier",
+                text="Runner and collector processes calling the real ResultsAggregator are interleaved at every lock operation and every "
+                     "file open/commit/remove; nothing may be lost, duplicated, changed or reported twice and the consolidated file must "
+                     "always parse."),
+    "C10": dict(cat="exploration", engine="E1-world(scheduler)+E4-direct", tech="model-based testing: generated operation sequences over several Cluster handles against a reference model (Hypothesis), plus generated bursts of concurrent submitter processes in the simulation world",
+                text="Operation sequences over 2-4 handles on distinct hosts: promotion iff free, stale writes rejected with files "
+                     "byte-identical, fresh writes accepted; bursts of try-submit-jobs/show-status processes interleaved at file-operation "
+                     "granularity: role never taken over while held, rounds never overlap, no double submission."),
+    "C11": dict(cat="fault_enumeration", engine="E1-world", tech="fault injection enumerated over every scheduling point of every submitter invocation of fixed scenarios (kill, lock timeout, EDQUOT at commit, sbatch/squeue failures; both lock-library behaviours) plus Hypothesis-generated scenario x schedule x fault",
+                text="Every kill point and every single injected failure of a submitter round (login and compute nodes) for fixed small "
+                     "scenarios, and generated ones beyond; safety over the whole faulty history: no double sbatch, no double start, "
+                     "dependency order, result rows never lost; squeue-only faults must still end in full completion."),
+    "C12": dict(cat="fault_enumeration", engine="E1-world+E3-model", tech=T_WORLD + "generated lost batches / node kills / cycles / operator commands; differential against the reference classification with the simulator's ground truth of lost jobs",
+                text="sbatch failures (series, garbled, transient), node kills at generated points (NODE_FAIL/TIMEOUT), dependency cycles and "
+                     "operator commands during the run; final results.json must match the reference: missing set exact, nothing "
+                     "fabricated or dropped, completion reached."),
+    "C15": dict(cat="exploration", engine="E1-world", tech=T_WORLD + "ordering and state invariants over multi-stage pipeline histories",
+                text="Pipelines of 1-4 generated stages (config files or auto-config commands), lost batches, resubmission of a completed "
+                     "stage; stage order, single creation, recorded stage number and return codes, pipeline completion."),
+    "C17": dict(cat="exploration", engine="E4-direct", tech="property-based testing (Hypothesis): round-trip oracle over generated configurations and rejection oracle over single injected invalidities",
+                text="Generated configurations over the public job/group models round-trip through JSON field for field and are accepted; "
+                     "each injected invalidity is rejected with InvalidConfiguration before any external command.",
+                note="trusted base: the generator of valid configurations (names by [\\w.-]+, effective-name uniqueness, estimates relative to the job's own group's walltime); JSON only"),
+    "C18": dict(cat="exploration", engine="E4-direct", tech="property-based testing (Hypothesis): independent expectation for generated SLURM scripts, conservative-decision oracle over generated squeue/sbatch texts, reference model of the retry loop",
+                text="Scripts for 1-3 groups through the real objects vs an independent expectation; squeue texts over the full state "
+                     "vocabulary vs the completion decision; sbatch responses vs GOOD/ERROR; scripted failure sequences vs the retry loop.",
+                note="trusted base: scripted stand-in for jade.utils.run_command._run_command (the process boundary); option spelling compared modulo '_'/'-'"),
+    "C19": dict(cat="exploration", engine="E4-direct", tech="property-based testing (Hypothesis) with real child processes: argv/env round-trip through an independent POSIX quoter and a /bin/sh probe",
+                text="Argument lists over a quoting/whitespace/special-character alphabet are rendered by an independent quoter, run for "
+                     "real through generate_command + AsyncCliCommand (and JobRunner batches); the probe's argv/env, stdio files and the "
+                     "recorded result row must match.",
+                note="trusted base: the independent quoter and the /bin/sh probe; real processes on this machine"),
+    "C20": dict(cat="exploration", engine="E4-direct", tech="property-based testing (Hypothesis): multiset/order/idempotence oracle for events, min/max/mean reference for statistics through a scripted monitor, partition oracle for tallies",
+                text="Generated event multisets over several files (incl. merged per-job logs), generated sample sequences through a scripted "
+                     "monitor (aggregated and periodic paths), generated result sets through the summary writers.",
+                note="trusted base: scripted stand-in for jade.resource_monitor.ResourceMonitor (the psutil boundary); non-negative samples"),
 }
 
 NOT_BUILT = "check not built yet (work in progress; see DESIGN.md section 9 build order)"
